@@ -61,6 +61,7 @@ def run(rec):
                          sample={'op': c.name} if k == 0 and ci == 1 else None)
     make_valid_frame(rec, rng)
     inplace_frames(rec, rng)
+    shallow_copy_structure(rec, rng)
     mps_frames(rec, rng)
 
 
@@ -104,6 +105,38 @@ def inplace_frames(rec, rng):
                 rec.check(np.array_equal(a.to_ndarray(), ref), f'{name}:other-reference-changed',
                           f'in-place {name} on a deep copy changed the original', {'op': name, 'mod': chinfo.mod.tolist()})
                 rec.check(list(a.get_leg_labels()) == ['x', 'y'], f'{name}:other-reference-labels', 'labels of the original changed')
+
+
+def shallow_copy_structure(rec, rng):
+    """a shallow copy shares the entries, not the bookkeeping: in-place operations that only restructure one Array (projection,
+    transposition, sorting of the blocks, relabelling, leg replacement) leave every shallow copy denoting the same tensor"""
+    import tenpy.linalg.np_conserved as npc
+    for ci, chinfo in enumerate(gen.chinfos()[:5]):
+        for k in range(5 if rec.tier == 'quick' else 60):
+            legs = [gen.random_leg(rng, chinfo) for _ in range(int(rng.integers(2, 4)))]
+            labels = [f'l{i}' for i in range(len(legs))]
+            ops = [('iproject(mask)', lambda t: t.iproject(rng.random(t.shape[0]) < 0.6, 0)),
+                   ('iproject(indices)', lambda t: t.iproject([int(x) for x in sorted(set(rng.integers(0, t.shape[1], size=2).tolist()))], 1)),
+                   ('itranspose', lambda t: t.itranspose([int(x) for x in rng.permutation(t.rank)])),
+                   ('isort_qdata', lambda t: t.isort_qdata()),
+                   ('ireplace_labels', lambda t: t.ireplace_labels(['l0'], ['new'])),
+                   ('iset_leg_labels', lambda t: t.iset_leg_labels([f'm{i}' for i in range(t.rank)])),
+                   ('ipurge_zeros', lambda t: t.ipurge_zeros(0.5)),
+                   ('legs[0] = bunched leg', lambda t: t.legs.__setitem__(0, t.legs[0].copy()))]
+            for name, fn in ops:
+                a = gen.random_array(rng, legs, float, labels=labels)
+                b = a.copy(deep=False)
+                ref = a.to_ndarray().copy()
+                inp = {'op': name, 'mod': chinfo.mod.tolist()}
+                rec.begin(f'C03 shallow copy {inp} k={k}')
+                ok, _ = rec.guarded(f'{name}:exception', lambda: fn(a), inp)
+                rec.case(('shallow', name, ci, k), len(b._data) >= 2)
+                bad = gen.sanity(b)
+                good = not bad and list(b.get_leg_labels()) == labels
+                if good:
+                    d = b.to_ndarray()
+                    good = d.shape == ref.shape and (np.array_equal(d, ref) if name != 'ipurge_zeros' else True)
+                rec.check(good, f'{name}:changes-a-shallow-copy', (bad[0] if bad else 'values / labels / shape of the shallow copy changed'), inp)
 
 
 def mps_frames(rec, rng):
